@@ -50,6 +50,19 @@ class C15(Prop):
     def before_op(self, case, op):
         return {"map": dict(case.led.prefix_map)}
 
+    # "blind" steps: the harness normally reads (and therefore flushes) both files after every request, which would hide any
+    # defect that depends on writes still sitting in the file buffers when clear() or close() runs.  A drawn marker makes the
+    # next 1-2 requests go unobserved (reports are still compared; they do not touch the files).
+    def draw_probes(self, case, data):
+        from hypothesis import strategies as st
+        if data.draw(st.integers(0, 3)) == 0:
+            return [("probe", "blind", data.draw(st.sampled_from([1, 1, 2])))]
+        return []
+
+    def run_probe(self, case, pop):
+        if pop[1] == "blind":
+            case.state["blind"] = pop[2]
+
     def after_op(self, case, op, out, pre):
         ctx = case.ctx
         twin = case.state["twin"]
@@ -68,6 +81,10 @@ class C15(Prop):
                 for p in ps:
                     if any(p.startswith(a) for a in case.led.rules):
                         case.flag("anchored-rule-fired")
+        if case.state.get("blind", 0) > 0:
+            case.state["blind"] -= 1
+            case.flag("unobserved-step")
+            return
         self.compare(case, op)
 
     def compare(self, case, op):
